@@ -165,6 +165,32 @@ theorem skel_tx_initialize_create (s : Sys) (t : Tx) (tgt : Tgt) (ch : Config.VM
   · rcases ph_cases4 pl.init with hl | hl | hl | hl <;> simp [hl] at hw <;> simp [hl] <;> skel_tx
   · rcases ph_cases4 pl.init with hl | hl | hl | hl <;> simp [hl] at hw <;> simp [hl] <;> skel_tx
 
+/-- INITIALIZING (transaction), proposals not yet listed, a ROLLBACK of a change of ONE target: the rollback
+    proposal is created unless it exists already (an earlier, interrupted pass), and in BOTH cases its id
+    is listed in `Status.Proposals` (the `append` is outside the not-found block) -/
+theorem skel_tx_initialize_create_rollback (s : Sys) (t : Tx) (tgt : Tgt) (ch : Config.VMap) (target : Tx)
+    (h : t.init = .opened) (hprops : t.proposals = none) (hrb : t.isRollback = true)
+    (htgt : s.tx? t.rollbackIndex = some target) (htrb : target.isRollback = false)
+    (hch : target.changes = [(tgt, ch)]) (hw : waitsPrevInit s t = false) :
+    txInitProposals s t =
+      { effects := initCreatesRollback s t target ++ [.tx t.index t.version (.setProposals [(tgt, t.index)])] } ∧
+    proj (v2sk_tx_initialize (gTxInitRbOf t (s.prop? (tgt, t.index)).isNone false false
+        (s.tx? (t.index - 1)).isNone ((s.tx? (t.index - 1)).getD default))) =
+      (initCreatesRollback s t target).flatMap effToksTx ++ [.set "proposals" "append(proposals, proposalID)"] ++
+        planTraceTx { effects := [.tx t.index t.version (.setProposals [(tgt, t.index)])] } := by
+  constructor
+  · simp [txInitProposals, hprops, hrb, htgt, htrb, hch]
+  unfold v2sk_tx_initialize initCreatesRollback
+  unfold waitsPrevInit at hw
+  gTxInitRbOf_atoms
+  simp only [h, hch, List.filterMap_cons, List.filterMap_nil]
+  rcases Option.eq_none_or_eq_some (s.tx? (t.index - 1)) with ho | ⟨pl, ho⟩ <;> simp only [ho] at hw ⊢ <;>
+    rcases Option.eq_none_or_eq_some (s.prop? (tgt, t.index)) with hq | ⟨q', hq⟩ <;> simp only [hq]
+  · skel_tx
+  · skel_tx
+  · rcases ph_cases4 pl.init with hl | hl | hl | hl <;> simp [hl] at hw <;> simp [hl] <;> skel_tx
+  · rcases ph_cases4 pl.init with hl | hl | hl | hl <;> simp [hl] at hw <;> simp [hl] <;> skel_tx
+
 /-- a listed proposal that is not found ends the invocation without a write (every loop) -/
 theorem skel_tx_missing (t : Tx) (p : Proposal) (q : Tx) (b : Bool) :
     (t.validate = .opened → proj (v2sk_tx_validate (gTxOf t true p b q)) = [.set "allValidated" "true", .ret "nil" []]) ∧
